@@ -219,6 +219,11 @@ func genC09Doc(t *rapid.T, tmpl string) *C09Val {
 		}
 		return v
 	}
+	if tmpl == "top-scalar" {
+		// the whole document is one string / array / number (untyped destination): a cut inside it leaves
+		// no enclosing container that could still report the truncation
+		return genC09Leaf(t)
+	}
 	// untyped: any tree; the top level is a container (CTE) or anything (CBE)
 	for {
 		v := genC09Tree(t, 0)
@@ -628,7 +633,7 @@ func c09Child(node *C09Val, i int, v reflect.Value) reflect.Value {
 	return reflect.Value{}
 }
 
-var c09Templates = []string{"nil", "nil", "nil", "nil", "[]int64", "map[string]int64", "[][]int64", "[]string", "struct", "[4]string", "arrstruct", "[]arrstruct"}
+var c09Templates = []string{"nil", "nil", "nil", "nil", "top-scalar", "[]int64", "map[string]int64", "[][]int64", "[]string", "struct", "[4]string", "arrstruct", "[]arrstruct"}
 
 func init() {
 	Register(&Prop{
@@ -636,6 +641,9 @@ func init() {
 		New: func() interface{} { return &C09Case{} },
 		Gen: func(t *rapid.T, ctx *Ctx) interface{} {
 			c := &C09Case{Format: rapid.SampledFrom([]string{"cbe", "cbe", "cte"}).Draw(t, "format"), Tmpl: rapid.SampledFrom(c09Templates).Draw(t, "template")}
+			if c.Tmpl == "top-scalar" {
+				c.Format = "cbe" // a prefix of a CTE number or string token is a shorter token: nothing can be demanded there
+			}
 			c.Doc = genC09Doc(t, c.Tmpl)
 			// markers on some values (not on the top-level one); the cut may then fall between a marker and
 			// the value it marks
